@@ -48,6 +48,7 @@ LayoutsThree == {L(<<"a", "a", "b">>, <<1, 2, 2>>), L(<<"a", "a", "a">>, <<1, 2,
 LayoutsLive == {L(<<"a", "a">>, <<1, 2>>), L(<<"a", "b">>, <<1, 1>>)}
 LayoutsCtl == {L(<<"a", "a">>, <<1, 2>>), L(<<"a", "b">>, <<1, 2>>)}
 LayoutsBad == {L(<<"a", "k">>, <<1, 2>>)}
+LayoutsLiveQ == {L(<<"a">>, <<1>>), L(<<"a", "a">>, <<1, 2>>)}
 LayoutsTwoA == {L(<<"a", "a">>, <<1, 2>>)}
 LayoutsThreeB == {L(<<"a", "a", "b">>, <<1, 2, 2>>), L(<<"a", "k", "a">>, <<1, 1, 2>>)}
 MutsNone == {"none"}
